@@ -268,8 +268,13 @@ pub fn run(report: &Report, tier: &Tier) {
     run_parallel(report, n, threads(), tier.budget_s * 0.2, |i, l| {
         crate::props::c11w::l3_case(deltas[(i % deltas.len() as u64) as usize], util::mix(seed, 0xC11_3000 + i), l);
     });
+    // the same for the unique records of an instance (TXT, SRV): replaced and replaced back
+    let n = deltas.len() as u64 * reps;
+    run_parallel(report, n, threads(), tier.budget_s * 0.1, |i, l| {
+        crate::props::c11w::l3_unique_case(deltas[(i % deltas.len() as u64) as usize] + 200, util::mix(seed, 0xC11_3800 + i), l);
+    });
     let n: u64 = if tier.thorough { 60_000 } else { 1_500 };
-    run_parallel(report, n, threads(), tier.budget_s * 0.3, |i, l| {
+    run_parallel(report, n, threads(), tier.budget_s * 0.2, |i, l| {
         crate::props::c11w::l2_case(util::mix(seed, 0xC11_2000 + i), l);
     });
     let n: u64 = if tier.thorough { 60_000 } else { 1_500 };
